@@ -128,6 +128,22 @@ impl LocalSpanStack {
         }
     }
 
+    /// Whether properties added to the given local span would be recorded.
+    #[inline]
+    pub fn is_recording(&mut self, local_span_handle: &LocalSpanHandle) -> bool {
+        self.current_span_line()
+            .map(|span_line| span_line.is_recording(local_span_handle))
+            .unwrap_or(false)
+    }
+
+    /// Whether properties added to the current local parent would be recorded.
+    #[inline]
+    pub fn is_current_recording(&mut self) -> bool {
+        self.current_span_line()
+            .map(|span_line| span_line.is_sampled())
+            .unwrap_or(false)
+    }
+
     pub fn current_collect_token(&mut self) -> Option<CollectToken> {
         let span_line = self.current_span_line()?;
         span_line.current_collect_token()
